@@ -474,6 +474,49 @@ def check_dump(model, res):
 
 # ---------------------------------------------------------------------------
 
+LIKE = ('numpy.empty_like', 'numpy.zeros_like', 'numpy.ones_like', 'numpy.full_like')
+
+
+def check_like_dtype(model, ci, res):
+    """'list, tuple and array inputs are equivalent': `solver([0, 1, 2], t)` reaches _run as an INTEGER array.  An output
+    array allocated with numpy.*_like(points) inherits that dtype and every value stored in it is truncated (EP piston:
+    density 2 instead of 2.839).  Every *_like allocation in _run whose prototype is the points array (or an alias) must
+    name a floating dtype."""
+    runm = ci.methods.get('_run')
+    if runm is None:
+        return 0
+    args = [a.arg for a in runm.node.args.args]
+    if len(args) < 2:
+        return 0
+    aliases = {args[1]}
+    for st in ast.walk(runm.node):
+        if isinstance(st, ast.Assign) and isinstance(st.value, ast.Name) and st.value.id in aliases:
+            for t in st.targets:
+                if isinstance(t, ast.Name):
+                    aliases.add(t.id)
+    n = 0
+    for c in ast.walk(runm.node):
+        if not isinstance(c, ast.Call):
+            continue
+        r = model.resolve_dotted(ci.module, c.func)
+        if r is None or r[0] != 'ext' or r[1] not in LIKE or not c.args:
+            continue
+        if not (isinstance(c.args[0], ast.Name) and c.args[0].id in aliases):
+            continue
+        n += 1
+        res.obligations += 1
+        dt = [k for k in c.keywords if k.arg == 'dtype']
+        ok = bool(dt) and src_of(dt[0].value).replace('np.', '').replace('numpy.', '') in ('float', 'float64', 'double', "'float64'", "'d'", "'f8'")
+        if ok:
+            res.discharged += 1
+        else:
+            res.add(_f('C05.output-dtype', runm, '%s: %s' % (ci.name, src_of(c)[:50]),
+                       "%s._run allocates an output array with `%s`: it inherits the dtype of the points, so positions given as "
+                       "integers (a list like [0, 1, 2] is a valid request) truncate every value stored in it"
+                       % (ci.name, src_of(c)[:60]), c, construct=src_of(c)[:80]))
+    return n
+
+
 def run(model, tier):
     res = Result(PROP)
     res.explanation = (
@@ -504,11 +547,14 @@ def run(model, tier):
             nruns += 1
             res.nontrivial += 1
             check_run(model, ci, res, stats)
+            stats['like_sites'] = stats.get('like_sites', 0) + check_like_dtype(model, ci, res)
             res.analysed.append(ci.fullname)
         elif '__init__' in ci.methods:
             res.nontrivial += 1
     if nruns < MIN_RUNS:
         raise AnalysisError('only %d classes define _run (confirmed: >= %d)' % (nruns, MIN_RUNS))
+    if stats.get('like_sites', 0) < 3:
+        raise AnalysisError('only %d *_like allocations from the points array found (confirmed: 11)' % stats.get('like_sites', 0))
     res.extra['classes'] = len(classes)
     res.extra['run_bodies'] = nruns
     res.extra['returned_solutions'] = stats['returns']
